@@ -61,10 +61,6 @@ Proof.
   - rewrite edit_row_other_rows by lia. reflexivity.
 Qed.
 
-(* the block: rows y .. y+len-1, in row j the columns x .. x + (length of that line) - 1 *)
-Definition in_block (x y : Z) (cells : list (list cell)) (i j : Z) : bool :=
-  (y <=? j) && (j <? y + Z.of_nat (length cells)) && (x <=? i) && (i <? x + Z.of_nat (length (nth (Z.to_nat (j - y)) cells []))).
-
 Lemma gcell_set_lines x cells : forall y g i j, 0 <= x -> 0 <= y -> 0 <= i -> 0 <= j ->
   gcell i j (g_set_lines false x y (lines_of cells) g) =
     if in_block x y cells i j then nth (Z.to_nat (i - x)) (nth (Z.to_nat (j - y)) cells []) empty_cell else gcell i j g.
